@@ -781,6 +781,9 @@ func c06Scenarios(thorough bool) []*scenario {
 	for mask := 0; mask < 8; mask++ {
 		r = append(r, &scenario{name: fmt.Sprintf("nodemanager/retry-poll/stopping-%03b", mask), bounds: []int{0}, body: mgrPollScenario(mask), steps: 20000000})
 	}
+	for _, n := range []int{1, 2} {
+		r = append(r, &scenario{name: fmt.Sprintf("nodemanager/retry-poll/%d-node-left", n), bounds: []int{0}, body: mgrFewNodesScenario(n), steps: 2000000})
+	}
 	for _, n := range []int{1, 2, 3} {
 		r = append(r, &scenario{name: fmt.Sprintf("txmanager/fresh-announcer-after-timeout/%d-waiting", n), bounds: []int{0}, body: freshAnnouncerScenario(n), steps: 50000})
 	}
